@@ -87,6 +87,8 @@ def make_market_class():
             self.update_script = {}        # model time of the bar -> [tags] recorded by update()
             self.accrue = False            # C02: the market's value depends on the data of every bar (column v)
             self.sparse = False            # _resample drops the bins without a row, as DeribitOptionMarket._resample does (a hole stays a hole)
+            self.strict = False            # set_market_status looks the row up unguarded (`self._data.loc[timestamp]`), as every real market class but
+                                           # DeribitOptionMarket does: KeyError on a bar the frame has no row for
 
         def check_market(self):
             if self._data.index.nlevels > 1:      # a book: DeribitOptionMarket.check_market only asks for a DataFrame
@@ -110,7 +112,7 @@ def make_market_class():
             super().set_market_status(data, price)
             src = None
             if data.data is None:
-                if data.timestamp in self._data.index:
+                if self.strict or data.timestamp in self._data.index:
                     row = self._data.loc[data.timestamp]
                     data.data = row
                     x = row["x"].iloc[0] if isinstance(row, pd.DataFrame) else row["x"]      # a book: several rows per timestamp
@@ -281,6 +283,7 @@ def build(markets, price_times, interval="1min", rec=None):
             m = PM(MarketInfo(name), frame(times, spec[4] if len(spec) > 4 else 1), rec, i)
             m.quote_token = usdc
             m.sparse = bool(spec[5]) if len(spec) > 5 else False
+            m.strict = bool(spec[6]) if len(spec) > 6 else False
         if has_open:
             m.open = (lambda mid: lambda snap: rec.on_open(mid, snap))(i)
         a.broker.add_market(m)
